@@ -25,6 +25,25 @@ class VerifAssert(ValueError):
     pass
 
 
+# user functions fail with exceptions of several builtin families (the operators must not
+# care which): the class is chosen by the error code
+class VerifTypeError(VerifError, TypeError):
+    pass
+
+
+class VerifValueError(VerifError, ValueError):
+    pass
+
+
+class VerifLookupError(VerifError, LookupError):
+    pass
+
+
+def verif_error(code):
+    k = code % 4 if isinstance(code, int) else 0
+    return (VerifError, VerifValueError, VerifTypeError, VerifLookupError)[k](code)
+
+
 # ------------------------------------------------------------------ value codec
 
 def enc(v):
@@ -141,12 +160,12 @@ def mk_fn(f, variant=None):
     elif n == 'failIf':
         def g(x):
             if x == c:
-                raise VerifError(c)
+                raise verif_error(c)
             return x
     elif n == 'failMod':
         def g(x):
             if isinstance(x, int) and x % 3 == c:
-                raise VerifError(x)
+                raise verif_error(x)
             return x
     elif n == 'list3':
         g = lambda x: [x, x + 10, x + 20]
@@ -169,6 +188,20 @@ def mk_fn(f, variant=None):
         return lambda x: 'key-%d' % g(x)
     if variant == 'float':
         return lambda x: float(g(x)) + 0.5
+    if variant == 'altfloat':
+        # the same value in turn as int, float and bool (1 == 1.0 == True, equal hashes): equal
+        # but of different types
+        cnt = [0]
+
+        def alt(x):
+            cnt[0] += 1
+            v = g(x)
+            if not isinstance(v, int) or isinstance(v, bool):
+                return v
+            if cnt[0] % 3 == 2 and v in (0, 1):
+                return bool(v)                  # True == 1, False == 0
+            return float(v) if cnt[0] % 3 == 1 else v
+        return alt
     raise C.MachineryError('unknown variant %r' % variant)
 
 
@@ -191,7 +224,7 @@ def mk_pred(p):
     if n == 'failIfP':
         def g(x):
             if x == c:
-                raise VerifError(c)
+                raise verif_error(c)
             return True
         return g
     if n == 'sndTrue':
@@ -221,7 +254,7 @@ def mk_acc(f):
     if n == 'failAdd':
         def g(a, x):
             if x == c:
-                raise VerifError(c)
+                raise verif_error(c)
             return a + x
         return g
     if n == 'addsnd':
@@ -248,6 +281,14 @@ def mk_star(f):
         return lambda a, b: (b, a)
     if n == 'fst2':
         return lambda a, b: a
+    if n == 'failAdd2':
+        c = f['c']
+
+        def g(a, b):
+            if a + b == c:
+                raise verif_error(c)
+            return a + b
+        return g
     raise C.MachineryError('unknown star function %r' % (f,))
 
 
@@ -423,6 +464,16 @@ def build(pipe, rec, pre, ctx):
     """[tap(pre+[0]), op1, tap(pre+[1]), ...] (taps omitted when rec is None)"""
     ops = []
     ends_only = ctx.get('taps') == 'ends'     # observe the two ends of the top-level pipeline only
+    if ctx.get('share_ops') and (rec is None or ends_only) and len(pre) > 0:
+        # no taps inside: an inner pipeline is a python list of operators; the same list
+        # object is handed to every composite operator that has the same inner pipeline
+        # (callers reuse a pipeline list; the operators must not modify or own it)
+        import json as _json
+        lk = 'list:' + _json.dumps(pipe, sort_keys=True)
+        lcache = ctx.setdefault('_opcache', {})
+        if lk in lcache:
+            return lcache[lk]
+        lcache[lk] = ops
     if rec is not None and (not ends_only or len(pre) == 0):
         ops.append(tap(rec, list(pre) + [0]))
     for i, op in enumerate(pipe, start=1):
@@ -725,12 +776,12 @@ def run_plain_late_subscriber(pipe, items, k, dispose_first_at=None):
     return res
 
 
-def run_plain(pipe, items, complete=True):
+def run_plain(pipe, items, complete=True, share_ops=False):
     """The plain (non multiplexed) code path of the same pipeline: items of one group
     as an ordinary observable.  Returns outputs with the number of source items pushed
     when each was emitted, and how the stream ended."""
     from rx.subject import Subject
-    ctx = {'routers': []}
+    ctx = {'routers': [], 'share_ops': share_ops}
     ops = build(pipe, None, [], ctx)
     src = Subject()
     state = {'step': 0, 'end': 'open', 'endstep': 0, 'err': NONE}
